@@ -1,6 +1,8 @@
+mod boxsched;
 mod charsdump;
 mod mtrace;
 mod ptrace;
+mod sched;
 mod sorttrace;
 mod strace;
 mod utrace;
@@ -34,6 +36,7 @@ fn main() {
         "utf32-trace" => utrace::run(&get("tier", "quick"), get("seed", "1").parse().unwrap(), get("shards", "8").parse().unwrap(), &get("out", "/verif/work/utrace")),
         "score-trace" => strace::run(&get("tier", "quick"), get("seed", "1").parse().unwrap(), get("shards", "8").parse().unwrap(), &get("out", "/verif/work/strace")),
         "sort-trace" => sorttrace::run(&get("tier", "quick"), get("seed", "1").parse().unwrap(), get("shards", "8").parse().unwrap(), &get("out", "/verif/work/sorttrace")),
+        "boxcar-sched" => boxsched::run(&get("tier", "quick"), get("seed", "1").parse().unwrap(), get("shards", "8").parse().unwrap(), &get("out", "/verif/work/boxsched"), a.get("only").map(|s| s.as_str())),
         "matcher-trace" => {
             let plan = mtrace::Plan {
                 tier: get("tier", "quick"),
